@@ -119,6 +119,10 @@ func (o *OracleC04) OnOut(n *Node, st *Step, out *Out) {
 			return // retransmission
 		}
 		o.committed[key] = true
+		if n.inc > 1 && o.s.retransmission(n, p) {
+			o.s.note("recovered_vote_retransmitted_after_restart")
+			return // a restarted node sends again, unchanged, the vote it got back from its peers
+		}
 		q, why := o.heldProposal(n)
 		if q == nil {
 			o.viol(n, "commit_without_primary_proposal", "height %d view %d: %s broadcast but %s", p.H, p.V, p.T, why)
